@@ -92,6 +92,86 @@ class RealFloat___le__(Contract):
         return {}
 
 
+# ---------------------------------------------------------------------------
+# exact RealFloat arithmetic on the ghost grid (used for the bounds and for the members' exact sums)
+
+class RealFloat___add__(Contract):
+    target = 'fpy2.number.number.reals:RealFloat.__add__'
+    params = {'self': 'RealFloat', 'other': 'RealFloat'}
+    returns = 'RealFloat'
+    properties = ['C14']
+    options = {'bounded_fallback': 10, 'bounded_ms': 30000}
+
+    def post(self, other, result):
+        G = ghost('grid', 0)
+        sz = self._c == 0
+        oz = other._c == 0
+        return {
+            'wf': result._c >= 0,
+            'exp': result._exp == ite(sz and not oz, other._exp, ite(oz and not sz, self._exp, imin(self._exp, other._exp))),
+            'grid': case_split(self._exp <= other._exp, self._s, other._s)
+                    and implies(G <= self._exp and G <= other._exp, Zr(result, G) == Zr(self, G) + Zr(other, G)),
+            'zero_sign': implies(sz and oz, result._s == (self._s and other._s)),
+            'exact_zero': implies(result._c == 0 and not (sz and oz), not result._s),
+            'nonneg': implies((sz or not self._s) and (oz or not other._s), result._c == 0 or not result._s),
+            'nonpos': implies((sz or self._s) and (oz or other._s), result._c == 0 or result._s),
+            'fresh': not same_obj(result, self) and not same_obj(result, other),
+        }
+
+    def raises(self, other):
+        return {}
+
+
+class RealFloat___neg__(Contract):
+    target = 'fpy2.number.number.reals:RealFloat.__neg__'
+    params = {'self': 'RealFloat'}
+    returns = 'RealFloat'
+    properties = ['C14']
+
+    def post(self, result):
+        return {'s': result._s == (not self._s), 'exp': result._exp == self._exp, 'c': result._c == self._c,
+                'fresh': not same_obj(result, self)}
+
+    def raises(self):
+        return {}
+
+
+class RealFloat___abs__(Contract):
+    target = 'fpy2.number.number.reals:RealFloat.__abs__'
+    params = {'self': 'RealFloat'}
+    returns = 'RealFloat'
+    properties = ['C14']
+
+    def post(self, result):
+        return {'s': result._s == False, 'exp': result._exp == self._exp, 'c': result._c == self._c,
+                'fresh': not same_obj(result, self)}
+
+    def raises(self):
+        return {}
+
+
+class RealFloat_normalize_n(Contract):
+    """normalize(n=...) only (p is None): same value, exponent n + 1; raises when digits would be shifted off"""
+    target = 'fpy2.number.number.reals:RealFloat.normalize'
+    params = {'self': 'RealFloat', 'p': 'None', 'n': 'int'}
+    returns = 'RealFloat'
+    properties = ['C14']
+
+    def post(self, p, n, result):
+        sh = self._exp - (n + 1)
+        return {
+            's': result._s == self._s,
+            'exp': result._exp == n + 1,
+            'c_up': implies(sh >= 0, result._c == self._c * pow2(sh)),
+            'c_down': implies(sh < 0, result._c * pow2(-sh) == self._c),
+            'wf': result._c >= 0,
+        }
+
+    def raises(self, p, n):
+        sh = self._exp - (n + 1)
+        return {'ValueError': (fmod(self._c, pow2(-sh)) != 0) if sh < 0 else False}
+
+
 class C14_neg_sound(Lemma):
     params = {'A': 'AbstractFormat', 'v': 'Float'}
     overrides = {'A.prec': 'int | PosInf', 'A.exp': 'int | NegInf',
@@ -293,16 +373,137 @@ class C14_le_sound(Lemma):
         g = GRID()
         return {'wfA': wf(A), 'wfB': wf(B),
                 'grid': grid_ok_fmt(A, g) and grid_ok_fmt(B, g) and g <= v._real._exp,
-                'mem': mem(v, A, g), 'contained': A <= B}
+                'mem': mem(v, A, g)}
 
     def post(A, B, v):
         g = GRID()
         r = v._real
         c = r._c
+        le = A <= B          # the real AbstractFormat.__le__ -> _is_contained_in
         return {
-            'special': mem_sp_v(v, B),
-            'exp': implies(nz(v), exp_fits(r._exp, B)),
-            'prec': implies(nz(v), prec_fits(c, B) or (c == pow2(bl(c) - 1) and prec_fits(1, B))),
-            'le_pos': implies(nz(v), le_pos(r._s, r._exp, c, B, g)),
-            'ge_neg': implies(nz(v), ge_neg(r._s, r._exp, c, B, g)),
+            'special': implies(le, mem_sp_v(v, B)),
+            'exp': implies(le and nz(v), exp_fits(r._exp, B)),
+            'prec': implies(le and nz(v), prec_fits(c, B) or (c == pow2(bl(c) - 1) and prec_fits(1, B))),
+            'le_pos': implies(le and nz(v), le_pos(r._s, r._exp, c, B, g)),
+            'ge_neg': implies(le and nz(v), ge_neg(r._s, r._exp, c, B, g)),
+        }
+
+
+class C14_add_special(Lemma):
+    """sum: result format is well-formed; NaN / infinities / -0 of the exact sum are members (IEEE 754 rules)"""
+    params = {'A': 'AbstractFormat', 'B': 'AbstractFormat', 'a': 'Float', 'b': 'Float'}
+    overrides = {'A.prec': 'int | PosInf', 'A.exp': 'int | NegInf',
+                 'A.pos_bound': 'RealFloat | PosInf', 'A.neg_bound': 'RealFloat | NegInf',
+                 'B.prec': 'int | PosInf', 'B.exp': 'int | NegInf',
+                 'B.pos_bound': 'RealFloat | PosInf', 'B.neg_bound': 'RealFloat | NegInf'}
+    split = ['A.prec', 'A.exp', 'A.pos_bound', 'A.neg_bound']
+    properties = ['C14']
+    options = {'light_first': True, 'theory_light': True}
+
+    def pre(A, B, a, b):
+        return {'wfA': wf(A), 'wfB': wf(B), 'repA': bounds_rep(A), 'repB': bounds_rep(B),
+                'memA': mem_sp_v(a, A), 'memB': mem_sp_v(b, B)}
+
+    def post(A, B, a, b):
+        R = A + B
+        out = wf_clauses(R, 'wf')
+        out.update({
+            'rep': bounds_rep(R),
+            'nan': implies(add_nan(a, b, False), R.has_nan),
+            'inf': implies(add_inf(a, b, False), ite(add_inf_sign(a, b, False), R.has_neg_inf, R.has_pos_inf)),
+            'neg_zero': implies(add_neg_zero(a, b, False), R.has_neg_zero),
+        })
+        return out
+
+
+class C14_add_finite(Lemma):
+    """sum: the exact sum of two finite members (computed by RealFloat.__add__, exact by its grid contract)
+    satisfies the quantum, precision and bound constraints of A + B (G1)"""
+    params = {'A': 'AbstractFormat', 'B': 'AbstractFormat', 'a': 'Float', 'b': 'Float'}
+    overrides = {'A.prec': 'int | PosInf', 'A.exp': 'int | NegInf',
+                 'A.pos_bound': 'RealFloat | PosInf', 'A.neg_bound': 'RealFloat | NegInf',
+                 'B.prec': 'int | PosInf', 'B.exp': 'int | NegInf',
+                 'B.pos_bound': 'RealFloat | PosInf', 'B.neg_bound': 'RealFloat | NegInf'}
+    split = ['A.prec', 'A.exp', 'A.pos_bound', 'A.neg_bound']
+    properties = ['C14']
+    options = {'light_first': True, 'theory_light': True}
+
+    def pre(A, B, a, b):
+        g = GRID()
+        out = {'wfA': wf(A), 'wfB': wf(B), 'repA': bounds_rep(A), 'repB': bounds_rep(B),
+               'grid': grid_ok_fmt(A, g) and grid_ok_fmt(B, g)}
+        out.update(fin_member_clauses(a, A, g, 'a'))
+        out.update(fin_member_clauses(b, B, g, 'b'))
+        return out
+
+    def post(A, B, a, b):
+        g = GRID()
+        R = A + B
+        s = a._real + b._real
+        return {
+            'grid': grid_ok_fmt(R, g) and g <= s._exp,
+            'exp': implies(s._c != 0, exp_fits(s._exp, R)),
+            'prec': implies(s._c != 0, prec_fits(s._c, R)),
+            'le_pos': le_pos(s._s, s._exp, s._c, R, g),
+            'ge_neg': ge_neg(s._s, s._exp, s._c, R, g),
+        }
+
+
+class C14_sub_special(Lemma):
+    """difference: result format is well-formed; NaN / infinities / -0 of the exact difference are members (IEEE 754 rules)"""
+    params = {'A': 'AbstractFormat', 'B': 'AbstractFormat', 'a': 'Float', 'b': 'Float'}
+    overrides = {'A.prec': 'int | PosInf', 'A.exp': 'int | NegInf',
+                 'A.pos_bound': 'RealFloat | PosInf', 'A.neg_bound': 'RealFloat | NegInf',
+                 'B.prec': 'int | PosInf', 'B.exp': 'int | NegInf',
+                 'B.pos_bound': 'RealFloat | PosInf', 'B.neg_bound': 'RealFloat | NegInf'}
+    split = ['A.prec', 'A.exp', 'A.pos_bound', 'A.neg_bound']
+    properties = ['C14']
+    options = {'light_first': True, 'theory_light': True}
+
+    def pre(A, B, a, b):
+        return {'wfA': wf(A), 'wfB': wf(B), 'repA': bounds_rep(A), 'repB': bounds_rep(B),
+                'memA': mem_sp_v(a, A), 'memB': mem_sp_v(b, B)}
+
+    def post(A, B, a, b):
+        R = A - B
+        out = wf_clauses(R, 'wf')
+        out.update({
+            'rep': bounds_rep(R),
+            'nan': implies(add_nan(a, b, True), R.has_nan),
+            'inf': implies(add_inf(a, b, True), ite(add_inf_sign(a, b, True), R.has_neg_inf, R.has_pos_inf)),
+            'neg_zero': implies(add_neg_zero(a, b, True), R.has_neg_zero),
+        })
+        return out
+
+
+class C14_sub_finite(Lemma):
+    """difference: the exact difference of two finite members (computed by RealFloat.__sub__ = self + (-other), exact by its grid contract)
+    satisfies the quantum, precision and bound constraints of A - B (G1)"""
+    params = {'A': 'AbstractFormat', 'B': 'AbstractFormat', 'a': 'Float', 'b': 'Float'}
+    overrides = {'A.prec': 'int | PosInf', 'A.exp': 'int | NegInf',
+                 'A.pos_bound': 'RealFloat | PosInf', 'A.neg_bound': 'RealFloat | NegInf',
+                 'B.prec': 'int | PosInf', 'B.exp': 'int | NegInf',
+                 'B.pos_bound': 'RealFloat | PosInf', 'B.neg_bound': 'RealFloat | NegInf'}
+    split = ['A.prec', 'A.exp', 'A.pos_bound', 'A.neg_bound']
+    properties = ['C14']
+    options = {'light_first': True, 'theory_light': True}
+
+    def pre(A, B, a, b):
+        g = GRID()
+        out = {'wfA': wf(A), 'wfB': wf(B), 'repA': bounds_rep(A), 'repB': bounds_rep(B),
+               'grid': grid_ok_fmt(A, g) and grid_ok_fmt(B, g)}
+        out.update(fin_member_clauses(a, A, g, 'a'))
+        out.update(fin_member_clauses(b, B, g, 'b'))
+        return out
+
+    def post(A, B, a, b):
+        g = GRID()
+        R = A - B
+        s = a._real - b._real
+        return {
+            'grid': grid_ok_fmt(R, g) and g <= s._exp,
+            'exp': implies(s._c != 0, exp_fits(s._exp, R)),
+            'prec': implies(s._c != 0, prec_fits(s._c, R)),
+            'le_pos': le_pos(s._s, s._exp, s._c, R, g),
+            'ge_neg': ge_neg(s._s, s._exp, s._c, R, g),
         }
